@@ -159,11 +159,14 @@ func (parser *syslogParser) Parse(input []byte, timestamp time.Time) *base.LogRe
 	}
 
 	// all the rest of message goes to the "log" message field
+	truncated := false
 	if len(remaining) > defs.InputLogMaxMessageBytes {
 		parser.onOverflow(input)
 		remaining = remaining[:defs.InputLogMaxMessageBytes]
+		truncated = true
 	}
-	if record.RawLength >= defs.InputLogMaxRecordBytes {
+	// the cut above (or the listener's cut of an over-long record) may fall inside a multi-byte character
+	if truncated || record.RawLength >= defs.InputLogMaxRecordBytes {
 		remaining = util.StringFromBytes(
 			util.CleanUTF8(util.BytesFromString(remaining)),
 		)
